@@ -15,6 +15,7 @@ func main() {
 	out := flag.String("out", "", "output directory")
 	vs := flag.String("vsched", "", "directory of the vsched sources")
 	pools := flag.Bool("pools", false, "also drive the luagc pool mutexes (C18); otherwise they keep sync.Mutex, which is sound only while the finaliser seam keeps Go's finaliser goroutine out of the pools")
+	globals := flag.Bool("globals", false, "mark package-level variable accesses in runtime/ and lib/*, GoFunction methods and Go-function call boundaries (C20)")
 	flag.Parse()
 	if *out == "" || *vs == "" {
 		fmt.Fprintln(os.Stderr, "usage: mkoverlay -out DIR -vsched DIR [-repo /repo]")
@@ -24,6 +25,17 @@ func main() {
 	if !*pools {
 		opt.AllowSync = []string{"runtime/internal/luagc/clonepool.go", "runtime/internal/luagc/unsafepool.go"}
 		opt.SyncFiles = []string{"runtime/thread.go"}
+	}
+	if *globals {
+		opt.GoFunctionMarks = true
+		opt.GlobalPkgs = []string{"runtime"}
+		ents, _ := os.ReadDir(*repo + "/lib")
+		for _, e := range ents {
+			if e.IsDir() && e.Name() != "golib" {
+				opt.GlobalPkgs = append(opt.GlobalPkgs, "lib/"+e.Name())
+			}
+		}
+		opt.GlobalPkgs = append(opt.GlobalPkgs, "lib")
 	}
 	p, sum, err := rewrite.Generate(opt)
 	if err != nil {
